@@ -34,7 +34,7 @@ def judge_accepted(dyn, kind, i, trial, es, old_sites, maxlength, mvlist, cap, c
         clauses.append(("not-member", f"accepted path {new} is not a member of its ensemble (kind={kind}, i={i}, maxlength={maxlength})"))
     if not time_ordered(trial):
         clauses.append(("time-order", f"accepted path {new} is not ordered in time: {[getattr(p, 't', None) for p in trial.phasepoints]}"))
-    w = tis.calc_cv_vector(trial, lat.interfaces(dyn.B), mvlist, lambda_minus_one=lm1, cap=cap, minus=(kind == "minus"))
+    w = tis.calc_cv_vector(trial, lat.interfaces(dyn.B), mvlist, lambda_minus_one=lat.o(lm1), cap=lat.o(cap), minus=(kind == "minus"))
     own = 0 if kind == "minus" else i
     if not w[own] != 0:
         clauses.append(("zero-weight", f"accepted path {new} has zero weight in its own ensemble: {w}"))
@@ -175,7 +175,7 @@ def swap_fn(dyn, old0, old1, maxlength, move1="sh", cap=None, lm1=False):
             rec["new"] = (s0, s1)
             # junction identity (C11): by site and by hidden identity (time stamp + origin tag)
             def ident(pp):
-                return (int(pp.order[0]), getattr(pp, "t", None))
+                return (lat.site_of(pp.order[0]), getattr(pp, "t", None))
             if [ident(x) for x in n0.phasepoints[-2:]] != [ident(x) for x in p1.phasepoints[:2]]:
                 clauses.append(("junction-minus", f"new [0-] {s0} does not end with the first two frames of old [0+] {old1}"))
             if [ident(x) for x in n1.phasepoints[:2]] != [ident(x) for x in p0.phasepoints[-2:]]:
